@@ -165,6 +165,24 @@ theorem shared_destination_refused (t : Tree) (p : Plan)
       (fun a b h hb ha he => (h ha hb he.symm).symm) hpw r hr r' hr' hrr
       (hskip r hn0 hid) (hskip r' (he ▸ hn0) hid') he)
 
+/-- C05 "all chains where one rename's destination is another rename's source" — chains AND cycles (a swap `ab <-> ba`, a
+    rotation): when the sources exist, a plan in which some rename's destination is the source of another rename is refused
+    before anything is changed.  (There is no order in which plain rename(2) calls carry out a cycle without losing a node;
+    for an open chain there is one, but `apply_plan` does not look for it — it refuses: seed C05e allowed chains through and
+    lost files on cycles.) -/
+theorem chain_or_cycle_refused (t : Tree) (p : Plan) (h4 : C02ren.KindsOk t p.rens)
+    (h : ∃ r ∈ p.rens, ∃ r' ∈ p.rens, r.newPath = r'.path ∧ r.newPath ≠ [] ∧ r.newPath ≠ r.path) :
+    ((applyPlan t p).outcome = .destExists ∨ (applyPlan t p).outcome = .sharedDest) ∧ (applyPlan t p).tree = t := by
+  obtain ⟨r, hr, r', hr', he, hne, hnp⟩ := h
+  exact occupied_refused t p ⟨r, hr, hne, hnp, by rw [he]; exact (h4 r' hr').1⟩
+
+/-- non-vacuity: the swap is refused, both files untouched; the rename phase on its own would lose one -/
+example :
+    let t : Tree := [([b!"ab.txt"], .file b!"A" 420), ([b!"ba.txt"], .file b!"B" 420)]
+    let rs : List Ren := [⟨[b!"ab.txt"], [b!"ba.txt"], .file⟩, ⟨[b!"ba.txt"], [b!"ab.txt"], .file⟩]
+    C02ren.KindsOk t rs ∧ (applyPlan t ⟨[], rs⟩).outcome = .destExists ∧ (applyPlan t ⟨[], rs⟩).tree = t ∧
+    (renamePhase t [] (sortRens rs)).tree.length = 1 := by decide
+
 /-- C05, second sentence, with NO hypothesis about destinations: "every file present before a successful apply is still
     present afterwards, at its old path or its planned new path".  For every tree and every plan whose renames change
     only the last component of distinct existing sources: if apply reports success, the tree is `moveAll` of the tree
